@@ -4,8 +4,10 @@ Three correspondence streams:
   engine-probe  scalar TS[int] graphs with probe nodes through hgv_engine (shared engine plug-in, unchanged)
   track         REAL standalone TSOutput objects of structured schemas (TS, TSB, fixed TSL, nestings) with 1-2
                 REAL TSInput objects bound by bind_output, driven by hgv_track with explicit evaluation times:
-                leaf writes, invalidation of a leaf / a child / a whole container, dumps of every position through
-                the output view and every input view, in the write cycle and in later quiet cycles.
+                leaf writes, WHOLE-VALUE writes of a container (copy_value_from / move_value_from of a dense, sparse,
+                all-unset or nested-present-but-empty bundle / list value), invalidation of a leaf / a child / a whole
+                container, dumps of every position through the output view and every input view, in the write cycle and
+                in later quiet cycles.
   track-bind    two REAL TSOutput objects of TS<Int> / TSS<Int> / TSD<Int,TS<Int>> and 1-3 REAL TSInput objects that are
                 bound, SAMPLED-bound (bind_output_sampled: what nested-graph boundaries and REF retargets use), re-bound
                 and unbound in ANY cycle, driven by hgv_trackbind: set / dict mutations, dumps of valid / modified / lmt /
@@ -166,6 +168,11 @@ LEVEL_NOTE = ('Trusted: Lean kernel; tracking model tied to types.cpp/base_view.
 SCHEMAS = ['TS<Int>', 'TSB{a:TS<Int>,b:TS<Int>}', 'TSL<TS<Int>,2>',
            'TSB{a:TS<Int>,b:TSB{c:TS<Int>,d:TS<Int>}}', 'TSL<TSB{a:TS<Int>,b:TS<Int>},2>']
 TSB2 = SCHEMAS[3]
+# container shapes of the whole-value-write histories (depth <= 3)
+WSCHEMAS = [SCHEMAS[1], SCHEMAS[2], SCHEMAS[3], SCHEMAS[4], 'TSL<TS<Int>,3>',
+            'TSB{a:TS<Int>,b:TSB{c:TS<Int>,d:TSB{e:TS<Int>,f:TS<Int>}}}',
+            'TSL<TSB{a:TS<Int>,b:TSL<TS<Int>,2>},2>',
+            'TSB{a:TSL<TS<Int>,3>,b:TS<Int>,c:TSB{d:TS<Int>}}']
 
 
 # ---------------------------------------------------------------------------------------------
@@ -174,6 +181,7 @@ TSB2 = SCHEMAS[3]
 class Pos:
     def __init__(self, path, parent, leaf):
         self.path, self.parent, self.leaf, self.kids = path, parent, leaf, []
+        self.list = False         # fixed-size TSL (its native value has no per-element validity)
 
 
 def parse_schema(text):
@@ -217,6 +225,7 @@ def parse_schema(text):
                     return
                 raise ValueError
         if eat('TSL<'):
+            p.list = True
             start = i[0]
             probe = len(out)
             rec(me, sub(0), depth + 1)
@@ -332,6 +341,275 @@ def gen_track(rng, idx, maxops):
     return Case(lines, {'profile': profile})
 
 
+# ---------------------------------------------------------------------------------------------
+# whole-value writes: value specs
+
+def render_spec(pos, p, present, vals):
+    """text of the value of container position p: present = set of present positions strictly below p, vals = leaf -> int"""
+    def rec(x):
+        if pos[x].leaf:
+            return str(vals[x])
+        return '(' + ','.join(rec(k) if k in present else '_' for k in pos[x].kids) + ')'
+    return rec(p)
+
+
+def parse_spec(pos, p, text):
+    """-> (present positions strictly below p in pre-order, {leaf: int}) or None when the text is not a value of p's shape
+    (only the list handed to the write itself may carry unset elements: a list NESTED in the value is a native fixed list
+    and must be dense - as drv_track.cpp)"""
+    i = [0]
+    present, vals = [], {}
+
+    def rec(x):
+        if pos[x].leaf:
+            m = re.match(r'-?\d+', text[i[0]:])
+            if not m or len(m.group(0).lstrip('-')) > 15:
+                raise ValueError
+            vals[x] = int(m.group(0))
+            i[0] += len(m.group(0))
+            return
+        if text[i[0]:i[0] + 1] != '(':
+            raise ValueError
+        i[0] += 1
+        for n, k in enumerate(pos[x].kids):
+            if n > 0:
+                if text[i[0]:i[0] + 1] != ',':
+                    raise ValueError
+                i[0] += 1
+            if text[i[0]:i[0] + 1] == '_':
+                i[0] += 1
+                if pos[x].list and x != p:
+                    raise ValueError
+            else:
+                present.append(k)
+                rec(k)
+        if text[i[0]:i[0] + 1] != ')':
+            raise ValueError
+        i[0] += 1
+
+    try:
+        if pos[p].leaf:
+            raise ValueError
+        rec(p)
+    except ValueError:
+        return None
+    if i[0] != len(text):
+        return None
+    return present, vals
+
+
+def _spec_kind(pos, p, present):
+    below = [x for x in _under(pos, p) if x != p]
+    leaves = [x for x in below if pos[x].leaf]
+    pl = [x for x in present if pos[x].leaf]
+    if not any(k in present for k in pos[p].kids):
+        return 'all-unset'
+    if not pl:
+        return 'nested-present-but-empty'
+    if len(pl) == len(leaves):
+        return 'dense'
+    if any((not pos[x].leaf) and not any(k in present for k in pos[x].kids) for x in present):
+        return 'sparse-with-empty-inner'
+    return 'sparse'
+
+
+def _gen_present(rng, pos, p, kind):
+    """a set of present positions strictly below p"""
+    present = set()
+
+    def fill(x, prob):
+        for k in pos[x].kids:
+            if rng.random() < prob or (pos[x].list and x != p):     # a nested list value is dense
+                present.add(k)
+                if not pos[k].leaf:
+                    fill(k, prob)
+    if kind == 'dense':
+        fill(p, 1.1)
+    elif kind == 'sparse':
+        fill(p, rng.choice([0.35, 0.55, 0.75]))
+    elif kind == 'all-unset':
+        pass
+    elif kind == 'nested-empty':
+        # some inner containers present, all of THEIR children unset (at any depth), nothing else
+        def empties(x):
+            for k in pos[x].kids:
+                if pos[k].leaf:
+                    continue
+                if pos[k].list:
+                    # a nested list cannot be empty; present only when its elements are containers (then dense, each empty)
+                    if all(not pos[e].leaf for e in pos[k].kids) and rng.random() < 0.5:
+                        present.add(k)
+                        for e in pos[k].kids:
+                            present.add(e)
+                            empties(e)
+                elif rng.random() < 0.7:
+                    present.add(k)
+                    empties(k)
+        empties(p)
+    elif kind == 'one-leaf':
+        leaves = [x for x in _under(pos, p) if pos[x].leaf]
+        l = rng.choice(leaves)
+        x = l
+        while x != p:
+            present.add(x)
+            x = pos[x].parent
+    elif kind == 'mixed-empty':
+        fill(p, 0.6)
+        for x in sorted(present):
+            if x in present and not pos[x].leaf and not pos[x].list and rng.random() < 0.4:
+                for y in _under(pos, x):
+                    if y != x:
+                        present.discard(y)
+    # a list NESTED in the value is dense: all its elements are present (container elements may be empty)
+    todo = [x for x in present if pos[x].list]
+    while todo:
+        x = todo.pop()
+        for e in pos[x].kids:
+            if e not in present:
+                present.add(e)
+                if pos[e].list:
+                    todo.append(e)
+    return present
+
+
+class _Sim:
+    """the generator's own picture of the flags (only used to steer: which positions ticked in this cycle)"""
+
+    def __init__(self, pos):
+        self.pos, self.lmt = pos, [0] * len(pos)
+
+    def write(self, l, t):
+        for x in _anc_self(self.pos, l):
+            self.lmt[x] = t
+
+    def inv(self, p, t):
+        if self.lmt[p] == 0:
+            return
+        for x in _under(self.pos, p):
+            self.lmt[x] = 0
+        for x in _anc_self(self.pos, p)[1:]:
+            self.lmt[x] = t
+
+    def dup(self, p, present, t):
+        """would the write raise 'duplicate modification'?"""
+        for c in present:
+            if not self.pos[c].leaf and self.lmt[c] == t:
+                if any(self.pos[l].leaf and l in present and self.lmt[l] != t and c in _anc_self(self.pos, l) for l in present):
+                    return True
+        return False
+
+
+def gen_whole(rng, idx, maxops):
+    schema = rng.choice(WSCHEMAS)
+    pos = parse_schema(schema)
+    leaves = [p for p in range(len(pos)) if pos[p].leaf]
+    conts = [p for p in range(len(pos)) if not pos[p].leaf]
+    inner = [p for p in conts if p != 0]
+    k = rng.choice([1, 2, 2])
+    t = rng.randint(1, 3)
+    lines = ['case %d' % idx, 'schema %s %d' % (schema, k)]
+    unbound = list(range(k))
+    if rng.random() < 0.8:
+        lines.append('bind 0 %d' % t)
+        unbound.remove(0)
+    if k == 2 and rng.random() < 0.4:
+        lines.append('bind 1 %d' % t)
+        unbound.remove(1)
+    profile = rng.choice(['whole', 'whole', 'empty-heavy', 'mixed', 'mixed', 'inv-mixed', 'dup'])
+    kinds = {'whole': ['dense', 'sparse', 'sparse', 'one-leaf', 'all-unset', 'nested-empty', 'mixed-empty'],
+             'empty-heavy': ['all-unset', 'all-unset', 'nested-empty', 'nested-empty', 'mixed-empty', 'sparse', 'one-leaf'],
+             'mixed': ['dense', 'sparse', 'one-leaf', 'all-unset', 'nested-empty', 'mixed-empty'],
+             'inv-mixed': ['dense', 'sparse', 'all-unset', 'nested-empty', 'one-leaf'],
+             'dup': ['dense', 'sparse', 'sparse', 'mixed-empty']}[profile]
+    p_ws = {'whole': 0.75, 'empty-heavy': 0.7, 'mixed': 0.45, 'inv-mixed': 0.4, 'dup': 0.5}[profile]
+    p_inv = {'whole': 0.08, 'empty-heavy': 0.1, 'mixed': 0.15, 'inv-mixed': 0.35, 'dup': 0.05}[profile]
+    sim = _Sim(pos)
+    n_ops = 0
+    while n_ops < maxops:
+        for _ in range(rng.choice([0, 1, 1, 2, 2, 3, 4])):
+            r = rng.random()
+            if r < p_ws:
+                p = 0 if (not inner or rng.random() < 0.6) else rng.choice(inner)
+                for attempt in range(4):
+                    present = _gen_present(rng, pos, p, rng.choice(kinds))
+                    if profile == 'dup' or not sim.dup(p, present, t) or rng.random() < 0.08:
+                        break
+                vals = {x: rng.randint(-9, 99) for x in present if pos[x].leaf}
+                lines.append('%s %s %d %s' % ('wm' if rng.random() < 0.3 else 'ws', pos[p].path, t, render_spec(pos, p, present, vals)))
+                if not sim.dup(p, present, t):
+                    for l in vals:
+                        sim.write(l, t)
+                else:
+                    # which leaves a failed write reached is the monitor's and the model's business; the steering picture
+                    # only needs "something below p may have ticked"
+                    for l in vals:
+                        sim.write(l, t)
+            elif r < p_ws + p_inv:
+                rr = rng.random()
+                p = 0 if rr < 0.3 else rng.choice(conts) if rr < 0.6 else rng.choice(leaves)
+                lines.append('inv %s %d' % (pos[p].path, t))
+                sim.inv(p, t)
+            else:
+                l = rng.choice(leaves)
+                lines.append('w %s %d %d' % (pos[l].path, t, rng.randint(-9, 99)))
+                sim.write(l, t)
+            n_ops += 1
+            if rng.random() < 0.2:
+                lines.append('dump %d' % t)
+        if unbound and rng.random() < 0.35:
+            i = unbound.pop(0)
+            lines.append('bind %d %d' % (i, t))            # an input that appears in a later cycle
+        if rng.random() < 0.95:
+            lines.append('dump %d' % t)
+        for _ in range(rng.choice([0, 0, 1, 1, 2])):
+            t += rng.choice([1, 1, 2, 5])
+            lines.append('dump %d' % t)
+        t += rng.choice([1, 1, 1, 2, 3])
+    lines.append('dump %d' % t)
+    lines.append('dump %d' % (t + 4))
+    return Case(lines, {'profile': 'ws:' + profile})
+
+
+def gen_whole_malformed(rng, idx):
+    """value specs that are not values of the position's shape: both drivers must answer bad-op and carry on"""
+    lines = ['case %d' % idx, 'schema %s 1' % TSB2, 'bind 0 1', 'ws . 1 (5,(_,7))', 'dump 1']
+    bad = ['ws . 2 (1,2)', 'ws . 2 (1,(2,3),4)', 'ws . 2 (1,(2,3)', 'ws . 2 1', 'ws 0 2 1', 'ws 0 2 (1)', 'ws . 2 (1,(2,3)))',
+           'ws . 2 (x,_)', 'ws . 2 (,_)', 'ws . 2 ()', 'ws 1 2 (_,_,_)', 'ws 5 2 (_,_)', 'wm . 2', 'ws . 2 (1 ,_)', 'ws . x (_,_)',
+           'ws . 2 (__)', 'ws . 2 (_,(_))', 'wz . 2 (_,_)', 'ws . 2 (1234567890123456,_)']
+    rng.shuffle(bad)
+    lines += bad[:5]
+    lines += ['ws . 0 (_,_)', 'ws 1 2 (_,-3)', 'dump 2', 'dump 3']
+    return Case(lines, {'profile': 'ws:malformed'})
+
+
+def exhaustive_whole(max_ops, start):
+    """every history of <= max_ops operations on the 2-level TSB out of: whole-value writes of the root (all-unset, only
+    a, inner present but empty, only c inside the inner, dense) and of the inner bundle (all-unset, only c), leaf writes of
+    a and d, invalidation of the root and of the inner bundle - each in the current cycle or in a new one; a dump
+    after every operation and one in a final quiet cycle"""
+    pos = parse_schema(TSB2)
+    alphabet = ['ws . %d (_,_)', 'ws . %d (1,_)', 'wm . %d (_,(_,_))', 'ws . %d (_,(2,_))', 'wm . %d (1,(2,3))',
+                'ws 1 %d (_,_)', 'ws 1 %d (4,_)', 'w 0 %d 5', 'w 1.1 %d 6', 'inv . %d', 'inv 1 %d']
+    steps = [(a, new) for a in alphabet for new in (False, True)]
+    cases = []
+    idx = start
+    for n in range(1, max_ops + 1):
+        for seq in itertools.product(steps, repeat=n):
+            if not seq[0][1]:
+                continue
+            t = 0
+            lines = ['case %d' % idx, 'schema %s 1' % TSB2, 'bind 0 1']
+            for (a, new) in seq:
+                if new:
+                    t += 1
+                lines.append(a % t)
+                lines.append('dump %d' % t)
+            lines.append('dump %d' % (t + 1))
+            cases.append(Case(lines, {'profile': 'ws:exhaustive'}))
+            idx += 1
+    return cases
+
+
 def gen_malformed(rng, idx):
     """a short valid history with a few malformed lines: both drivers must answer bad-op / err and carry on"""
     schema = rng.choice(SCHEMAS[1:])
@@ -406,6 +684,11 @@ def streams(rng, tier, seed):
     track += [gen_track(rng, i, rng.choice([6, 12, 25]) if quick else rng.choice([8, 20, 45])) for i in range(nt)]
     track += [gen_malformed(rng, nt + i) for i in range(12 if quick else 120)]
     track += exhaustive_tsb2(3 if quick else 4, len(track) + 100)
+    nw = 320 if quick else 7000
+    base = len(track) + 100000
+    track += [gen_whole(rng, base + i, rng.choice([5, 10, 20]) if quick else rng.choice([8, 20, 40])) for i in range(nw)]
+    track += [gen_whole_malformed(rng, base + nw + i) for i in range(8 if quick else 80)]
+    track += exhaustive_whole(2 if quick else 3, base + nw + 1000)
     nb = 420 if quick else 9000
     bind = _corpus_bind()
     bind += [cb.gen_bind(rng, i, rng.choice([6, 12, 25]) if quick else rng.choice([8, 20, 45])) for i in range(nb)]
@@ -466,6 +749,7 @@ def _mon_track(case, out):
     last_t = 0
     consumer_hits = 0
     effective_seen_at = None      # time of an effective invalidation not yet followed by a later dump
+    pending_empty = None          # time of a whole-value write that wrote no leaf, not yet followed by a dump
 
     def bad(cls, msg):
         if len(res.bad) < 6:
@@ -559,6 +843,78 @@ def _mon_track(case, out):
             seq += 1
             wr[p] = (seq, t, int(w[3]))
             continue
+        if op in ('ws', 'wm') and len(w) == 4 and w[1] in paths and not pos[paths[w[1]]].leaf and wellformed_t(w[2]) \
+                and parse_spec(pos, paths[w[1]], w[3]) is not None:
+            # WHOLE-VALUE write of a container.  Reference: it IS the sequence of the leaf writes of its present leaves
+            # (nothing else is written, so nothing else may tick or become valid); an all-unset / nested-but-empty value
+            # writes nothing.  One explicit error: a nested container that already ticked in this cycle and gets a newly
+            # written leaf makes the write fail half-way (logic_error "duplicate modification"): the leaves reached
+            # before that point stay written.
+            t = int(w[2])
+            if t == 0:
+                if o != 'err:invalid-arg':
+                    bad('trace', 'whole-value write at MIN_DT answered %r' % o)
+                continue
+            p = paths[w[1]]
+            if t < last_t:
+                res.feats.add('time-goes-back')
+                return res
+            present, vals = parse_spec(pos, p, w[3])
+            pset = set(present)
+            before = {x: ref(x, t) for x in _anc_self(pos, p) + present}
+            pleaves = [l for l in present if pos[l].leaf]                       # pre-order
+            fresh = [l for l in pleaves if not before[l][1]]                     # not yet written in this cycle
+            end = lambda c: max(_under(pos, c)) + 1
+            dups = [c for c in present if not pos[c].leaf and before[c][1]
+                    and any(c in _anc_self(pos, l) for l in fresh)]
+            kind = _spec_kind(pos, p, pset)
+            res.feats.add('ws:%s' % kind)
+            res.feats.add('ws:via-%s' % ('move' if op == 'wm' else 'copy'))
+            res.feats.add('ws:at-%s' % ('root' if p == 0 else 'inner-container'))
+            if not fresh:
+                res.feats.add('ws:writes-nothing-new:%s' % ('never-written' if not before[p][0] else
+                                                            'already-ticked' if before[p][1] else 'valid-quiet'))
+            is_ok = o == 'ok' or o.startswith('ok ')
+            is_err = o == 'err:logic' or o.startswith('err:logic ')
+            if not (is_ok or is_err):
+                bad('trace', '%r answered %r' % (ln, o))
+                continue
+            if is_err and not dups:
+                bad('trace', 'a whole-value write failed although no nested container that already ticked in this cycle '
+                             'gets a newly written leaf: %r at t=%d answered %r' % (ln, t, o))
+                continue
+            written, stamped = pleaves, None
+            if is_err:
+                # the first failing container in call order (children before their parent, earlier siblings first)
+                cstar = min(dups, key=lambda c: (end(c), -c))
+                written = [l for l in pleaves if l < end(cstar)]
+                done = [x for x in present if (end(x), -x) < (end(cstar), -cstar)]
+                stamped = {pos[x].path for x in done if not before[x][1] and any(x in _anc_self(pos, l) for l in fresh if l in written)}
+                res.feats.add('ws:duplicate-modification-error')
+            elif dups:
+                res.feats.add('ws:duplicate-modification-expected-but-ok')     # left to the correspondence
+            else:
+                up = set()
+                for l in fresh:
+                    up |= {x for x in _anc_self(pos, l)}
+                stamped = {pos[x].path for x in up if not ref(x, t)[1]}
+            try:
+                got_n = _parse_notes(o[2:] if is_ok else o[len('err:logic'):])
+            except ValueError as e:
+                bad('trace', str(e))
+                got_n = None
+            if got_n is not None and stamped is not None:
+                exp_n = {k: 1 for k in stamped}
+                if got_n != exp_n:
+                    bad('notify', 'a whole-value write notified observers other than once per position that becomes modified: '
+                                  '%r at t=%d notified %s, expected %s' % (ln, t, got_n, exp_n))
+            last_t = t
+            for l in written:
+                seq += 1
+                wr[l] = (seq, t, vals[l])
+            if not written:
+                pending_empty = t
+            continue
         if op == 'inv' and len(w) == 3 and w[1] in paths and wellformed_t(w[2]):
             t = int(w[2])
             if t == 0:
@@ -621,6 +977,11 @@ def _mon_track(case, out):
                 continue
             quiet = t > last_t
             res.feats.add('dump:quiet-cycle' if quiet else 'dump:write-cycle')
+            if pending_empty is not None:
+                if t == pending_empty:
+                    res.nontrivial = True
+                    res.feats.add('empty-whole-value-write-observed-in-its-cycle')
+                pending_empty = None
             if effective_seen_at is not None and t > effective_seen_at:
                 res.nontrivial = True
                 res.feats.add('invalidation-observed-in-later-cycle')
@@ -747,7 +1108,7 @@ def features(stream, case, out):
     fs = set('track:' + f for f in res.feats)
     if 'profile' in case.meta:
         fs.add('track:profile=' + case.meta['profile'])
-    n = sum(1 for l in case.lines if l.split()[:1] in (['w'], ['inv']))
+    n = sum(1 for l in case.lines if l.split()[:1] in (['w'], ['inv'], ['ws'], ['wm']))
     fs.add('track:ops=%s' % ('0-4' if n <= 4 else '5-12' if n <= 12 else '13-25' if n <= 25 else '26+'))
     return sorted(fs)
 
@@ -782,9 +1143,9 @@ def valid_case(stream, case, impl_out, model_out):
             return False
     last = 0
     for w in body[1:]:
-        if w[0] in ('w', 'inv', 'dump', 'bind'):
+        if w[0] in ('w', 'ws', 'wm', 'inv', 'dump', 'bind'):
             try:
-                t = int(w[2] if w[0] in ('w', 'inv', 'bind') else w[1])
+                t = int(w[2] if w[0] in ('w', 'ws', 'wm', 'inv', 'bind') else w[1])
             except (ValueError, IndexError):
                 return False
             if t < last:
